@@ -53,7 +53,7 @@ func (g *Gen) freshName() []byte {
 	}
 }
 
-var badNames = []string{"", "1abc", "a b", "a-b", "x[", "x[]", "x[1", "x[a]", "x[1]y", "...", "...[0]", "..", "....", "...[x]", "é", "a\n", "[1]", "x[1][", "x[-1]", " x", "x ", "T", "f", "0b1", "0b", "0b2"}
+var badNames = []string{"", "1abc", "a b", "a-b", "x[", "x[]", "x[1", "x[a]", "x[1]y", "...", "...[0]", "..", "....", "...[x]", "é", "a\n", "[1]", "x[1][", "x[-1]", " x", "x ", "T", "f", "0b1", "0b", "0b2", "名前", "x٣", "v[٣]", "aé", "x[١]", "xⅫ", "ǅ", "x\u0300"}
 
 // widths and ranges
 func intRange(w int) (int64, int64) {
